@@ -868,16 +868,12 @@ impl ProxyServer {
 
         // sign the request
         // Add header x-ms-azure-host-authorization
-        if let (Some(key), Some(key_guid)) = (
-            self.key_keeper_shared_state
-                .get_current_key_value()
-                .await
-                .unwrap_or(None),
-            self.key_keeper_shared_state
-                .get_current_key_guid()
-                .await
-                .unwrap_or(None),
-        ) {
+        let (current_key_guid, current_key) = self
+            .key_keeper_shared_state
+            .get_current_key_guid_and_value()
+            .await
+            .unwrap_or((None, None));
+        if let (Some(key), Some(key_guid)) = (current_key, current_key_guid) {
             let input_to_sign = hyper_client::as_sig_input(head, whole_body);
             match helpers::compute_signature(&key, input_to_sign.as_slice()) {
                 Ok(sig) => {
